@@ -32,6 +32,7 @@ int main(int argc, char** argv) {
         else if (a == "--n" && i + 1 < argc) n = atoi(argv[++i]);
         else if (a == "--rep" && i + 1 < argc) rep = argv[++i];
         else if (a == "--view" && i + 1 < argc) view = atoi(argv[++i]);
+        else if (a == "--knob" && i + 1 < argc) { std::string kv = argv[++i]; size_t e = kv.find('='); if (e != std::string::npos) jv::g_cli_knobs[kv.substr(0, e)] = strtoll(kv.c_str() + e + 1, nullptr, 10); }
         else if (a == "-v") verbose = true;
         else pos.push_back(a);
     }
